@@ -1,7 +1,91 @@
-/- Driver entry for property C18: one request payload in, one canonical response line out. -/
-import Molli.Util.Basic
-namespace Molli.Driver.C18
+/-
+Driver entry for property C18 (model: Molli.Model.Jobmap). One request payload (a whole history) in, one line out.
 
-def handle (_payload : String) : String := "err:not-implemented"
+  hist <r|s> <items> <predest> <plans> <runs>
+     items   = key:subs,…          subs = `-` (single job) or the number of sub-jobs
+     predest = key=markerhex,… | -  (entries of the destination before the first run)
+     plans   = job=PLAN,… | -       PLAN = S | F<c> | W<c> | N<n>/<c> | O      (default S)
+     runs    = tag:strict[:reset];…  strict = 1 | 0; reset = 1: the destination is replaced by an empty one before the run
+  → per run, joined by ` | `:
+     `ex=<executed jobs, sorted,> dest=<key=valuehex sorted,> cache=<job=code/payloadhex|- sorted,> att=<job=n,>`
+     or `raise` (variant s: the call raises; the state is unchanged)
+-/
+import Molli.Util.Basic
+import Molli.Model.Jobmap
+namespace Molli.Driver.C18
+open Molli.Util Molli.Model.Jobmap
+
+def splitL (s : String) (sep : String) : List String := if s == "-" then [] else s.splitOn sep
+
+def hexS (s : String) : String := hexTok s.toUTF8.toList
+
+def strOfHex? (s : String) : Option String := do
+  let bs ← bytesOfHex? s
+  String.fromUTF8? (ByteArray.mk bs.toArray)
+
+def parseItem? (s : String) : Option Item :=
+  match s.splitOn ":" with
+  | [k, n] => if n == "-" then some ⟨k, none⟩ else n.toNat?.map fun n => ⟨k, some n⟩
+  | _ => none
+
+def parsePlan? (s : String) : Option Plan :=
+  if s == "S" then some .ok
+  else if s == "O" then some .omit
+  else if s.startsWith "F" then (s.drop 1).toString.toNat?.map Plan.fail
+  else if s.startsWith "W" then (s.drop 1).toString.toNat?.map Plan.failWrote
+  else if s.startsWith "N" then
+    match (s.drop 1).toString.splitOn "/" with
+    | [n, c] => do pure (.okFrom (← n.toNat?) (← c.toNat?))
+    | _ => none
+  else none
+
+def parseKV? {α : Type} (f : String → Option α) (s : String) : Option (String × α) :=
+  match s.splitOn "=" with
+  | [k, v] => (f v).map fun v => (k, v)
+  | _ => none
+
+/-- a run and whether the destination is replaced by a new empty one before it -/
+def parseRun? (plans : List (String × Plan)) (s : String) : Option (Run × Bool) :=
+  let mk (t st : String) : Run := { tag := t, plan := fun j => ((plans.find? (·.1 == j)).map (·.2)).getD .ok, strict := st == "1" }
+  match s.splitOn ":" with
+  | [t, st] => some (mk t st, false)
+  | [t, st, rs] => some (mk t st, rs == "1")
+  | _ => none
+
+def sortS (l : List String) : List String := l.mergeSort (fun a b => !(b < a))
+
+def showState (src : List Item) (destKeys : List String) (st : St) (ex : List String) : String :=
+  let jobs := sortS ((src.flatMap jobNames).eraseDups)
+  let keys := sortS destKeys.eraseDups
+  let d := keys.filterMap fun k => (st.dest k).map fun v => k ++ "=" ++ hexS v
+  let c := jobs.filterMap fun j => (st.cache j).map fun e =>
+    j ++ "=" ++ toString e.code ++ "/" ++ (match e.payload with | some p => hexS p | none => "-")
+  let a := jobs.filterMap fun j => if st.attempts j = 0 then none else some (j ++ "=" ++ toString (st.attempts j))
+  s!"ex={",".intercalate (sortS ex)} dest={",".intercalate d} cache={",".intercalate c} att={",".intercalate a}"
+
+def handle (payload : String) : String :=
+  match words payload with
+  | ["hist", v, items, predest, plans, runs] =>
+    match (splitL items ",").mapM parseItem?, (splitL predest ",").mapM (parseKV? strOfHex?),
+          (splitL plans ",").mapM (parseKV? parsePlan?) with
+    | some src, some pre, some plans =>
+      match (splitL runs ";").mapM (parseRun? plans) with
+      | none => "err:bad-request"
+      | some rs =>
+        let st0 : St := { emptySt with dest := fun k => (pre.find? (·.1 == k)).map (·.2) }
+        let destKeys := pre.map (·.1) ++ src.map (·.key)
+        let step := fun (acc0 : St × List String) (rr : Run × Bool) =>
+          let r := rr.1
+          let acc : St × List String := if rr.2 then ({ acc0.1 with dest := fun _ => none }, acc0.2) else acc0
+          if v == "s" then
+            match runShipped src (destKeys.filter fun k => (acc.1.dest k).isSome) r acc.1 with
+            | none => (acc.1, acc.2 ++ ["raise"])
+            | some (st', ex) => (st', acc.2 ++ [showState src destKeys st' ex])
+          else
+            let (st', ex) := runRepaired src r acc.1
+            (st', acc.2 ++ [showState src destKeys st' ex])
+        " | ".intercalate (rs.foldl step (st0, [])).2
+    | _, _, _ => "err:bad-request"
+  | _ => "err:bad-request"
 
 end Molli.Driver.C18
